@@ -44,10 +44,19 @@ def run(tier, seed):
                 # a partition constraint: the numbers themselves when they sum to the total, else [total]
                 if sum(u["numbers"]) == u["total"] and len(u["numbers"]) >= 2:
                     v = dict(base); v["partition_constraints"] = [list(u["numbers"])]; v["pcs"] = [list(u["numbers"])]; variants.append(v)
+            if u["mult"] == 1 and u["total"] >= 4:
+                # two partition constraints (each a list of positive integers summing to the total; the generating set must
+                # split into groups with those sums, once per constraint): the first one binding as much as the last
+                def part(t, n):
+                    cuts = sorted(rng.sample(range(1, t), n - 1))
+                    return [b - a for a, b in zip([0] + cuts, cuts + [t])]
+                p1, p2 = part(u["total"], rng.choice([2, 3]) if u["total"] >= 4 else 2), part(u["total"], 2)
+                v = dict(base); v["partition_constraints"] = [p1, p2]; v["pcs"] = [p1, p2]; variants.insert(2, v)
+                v = dict(base); v["partition_constraints"] = [p2, p1]; v["pcs"] = [p2, p1]; variants.insert(2, v)
             # the same numbers as a LIST with repeated values (the answer depends on the set of values only)
             rep = list(u["numbers"]) + [rng.choice(u["numbers"]) for _ in range(rng.randint(1, 4))]
             v = dict(base); v["numbers"] = rep; v["remove_complement_values"] = False; variants.insert(2, v)
-            for v in (variants if tier != "quick" else variants[:3] + rng.sample(variants[3:], min(1, len(variants) - 3))):
+            for v in (variants if tier != "quick" else variants[:5] + rng.sample(variants[5:], min(1, max(0, len(variants) - 5)))):
                 insts.append(v)
         else:
             b = {"cls": "MinSetCover", "universe": u["universe"], "subsets": u["subsets"],
